@@ -1,14 +1,200 @@
-//! Emulated Xen gntdev / privcmd device (xen build only). Filled in with S-xen.
+//! Emulated Xen gntdev / privcmd device (xen build only).
+//!
+//! One sparse memfd *is* the guest's memory: guest page number p lives at file offset p * 4096.
+//! * gntdev: IOCTL_GNTDEV_MAP_GRANT_REF(count, refs) records a live grant and returns
+//!   `index = refs[0].reference * 4096`, so that the library's subsequent `mmap(fd, index)` maps
+//!   exactly the granted guest pages; IOCTL_GNTDEV_UNMAP_GRANT_REF(index, count) releases it.
+//! * privcmd: IOCTL_PRIVCMD_MMAPBATCH_V2(num, addr, pfns) re-maps each page of the already
+//!   mmap'ed range onto guest page pfns[i].
 
-pub struct XenDev {}
+use crate::sim::cx;
+use std::fs::File;
+use std::os::fd::AsRawFd;
+
+pub const PAGE: usize = 4096;
+pub const GUEST_MEM_SIZE: u64 = 1 << 32;
+
+#[derive(Clone, Debug)]
+pub struct Grant {
+    pub index: u64,
+    pub count: u32,
+    pub live: bool,
+    /// mapping ids (address-space model) of windows created over this grant
+    pub windows: Vec<u32>,
+}
+
+pub struct XenDev {
+    pub mem: File,
+    pub fds: Vec<i32>,
+    pub grants: Vec<Grant>,
+    pub ioctl_calls: u32,
+    /// fail the k-th (0-based) map ioctl (grant map or privcmd batch) of the run
+    pub fail_map_at: Option<u32>,
+    pub map_calls: u32,
+    pub anomalies: Vec<String>,
+    pub log: Vec<String>,
+    pub foreign_maps: u32,
+}
 
 impl XenDev {
-    pub fn on_mmap(&mut self, _fd: i32, _offset: u64, _len: usize, _id: u32) {}
-    pub fn on_munmap(&mut self, _id: u32) {}
+    pub fn new() -> XenDev {
+        let mem = crate::gmworld::memfd(GUEST_MEM_SIZE);
+        let fd = mem.as_raw_fd();
+        XenDev { mem, fds: vec![fd], grants: Vec::new(), ioctl_calls: 0, fail_map_at: None, map_calls: 0, anomalies: Vec::new(), log: Vec::new(), foreign_maps: 0 }
+    }
+    /// a File referring to the device, to hand to the library
+    pub fn handle(&mut self) -> File {
+        let f = self.mem.try_clone().expect("dup");
+        self.fds.push(f.as_raw_fd());
+        f
+    }
+    pub fn is_dev(&self, fd: i32) -> bool {
+        self.fds.contains(&fd)
+    }
+    pub fn live_grants(&self) -> Vec<(u64, u32)> {
+        self.grants.iter().filter(|g| g.live).map(|g| (g.index, g.count)).collect()
+    }
+    pub fn pwrite(&self, guest_addr: u64, data: &[u8]) {
+        // SAFETY: writing our own buffer into our own file.
+        let n = unsafe { libc::pwrite(self.mem.as_raw_fd(), data.as_ptr() as *const libc::c_void, data.len(), guest_addr as libc::off_t) };
+        assert_eq!(n, data.len() as isize);
+    }
+    pub fn pread(&self, guest_addr: u64, len: usize) -> Vec<u8> {
+        let mut v = vec![0u8; len];
+        // SAFETY: reading into our own buffer.
+        let n = unsafe { libc::pread(self.mem.as_raw_fd(), v.as_mut_ptr() as *mut libc::c_void, len, guest_addr as libc::off_t) };
+        assert_eq!(n, len as isize);
+        v
+    }
+
+    pub fn on_mmap(&mut self, fd: i32, offset: u64, len: usize, id: u32) {
+        if !self.is_dev(fd) {
+            return;
+        }
+        let pages = len.div_ceil(PAGE) as u64;
+        // a window over the grant device must lie inside a live grant (offset 0 maps are the
+        // privcmd style "reserve first, populate by ioctl" mappings and are not checked here)
+        if let Some(g) = self.grants.iter_mut().find(|g| g.live && offset >= g.index && offset + pages * PAGE as u64 <= g.index + g.count as u64 * PAGE as u64) {
+            g.windows.push(id);
+        } else if offset != 0 {
+            self.anomalies.push(format!("mmap of {} byte(s) of the grant device at offset {:#x} which no live grant covers", len, offset));
+        }
+    }
+    pub fn on_munmap(&mut self, id: u32) {
+        for g in self.grants.iter_mut() {
+            g.windows.retain(|&w| w != id);
+        }
+    }
+}
+
+#[repr(C)]
+struct MapHdr {
+    count: u32,
+    pad: u32,
+    index: u64,
+}
+#[repr(C)]
+struct Ref {
+    domid: u32,
+    reference: u32,
+}
+#[repr(C)]
+struct Unmap {
+    index: u64,
+    count: u32,
+    pad: u32,
+}
+#[repr(C)]
+struct Batch {
+    num: u32,
+    domid: u16,
+    addr: *mut libc::c_void,
+    arr: *const u64,
+    err: *mut libc::c_int,
 }
 
 /// # Safety
-/// `arg` must point to the ioctl argument structure of `arg_len` bytes.
-pub unsafe fn ioctl(_fd: i32, _req: u64, _arg: *mut u8, _arg_len: usize) -> i32 {
-    -1
+/// `arg` must point to the ioctl argument structure the library built for `req`.
+pub unsafe fn ioctl(fd: i32, req: u64, arg: *mut u8, _arg_len: usize) -> i32 {
+    let c = cx();
+    let Some(x) = c.sys.xen.as_mut() else { return -1 };
+    if !x.is_dev(fd) {
+        x.anomalies.push(format!("ioctl {:#x} on a descriptor that is not the emulated device", req));
+        return -1;
+    }
+    x.ioctl_calls += 1;
+    let ty = ((req >> 8) & 0xff) as u8;
+    let nr = (req & 0xff) as u8;
+    match (ty, nr) {
+        (b'G', 0) => {
+            let hdr = &mut *(arg as *mut MapHdr);
+            let refs = std::slice::from_raw_parts(arg.add(std::mem::size_of::<MapHdr>()) as *const Ref, hdr.count as usize);
+            let k = x.map_calls;
+            x.map_calls += 1;
+            if x.fail_map_at == Some(k) {
+                x.log.push(format!("map_grant_ref(count={}) -> injected failure", hdr.count));
+                cx().count("fault.xen_map_ioctl_fail");
+                return -1;
+            }
+            if hdr.count == 0 {
+                x.log.push("map_grant_ref(count=0) -> EINVAL".into());
+                return -1;
+            }
+            for (i, r) in refs.iter().enumerate() {
+                if r.reference != refs[0].reference + i as u32 {
+                    x.anomalies.push("grant references are not consecutive".into());
+                }
+            }
+            let index = refs[0].reference as u64 * PAGE as u64;
+            hdr.index = index;
+            x.grants.push(Grant { index, count: hdr.count, live: true, windows: Vec::new() });
+            x.log.push(format!("map_grant_ref(first_ref={}, count={}) -> index {:#x}", refs[0].reference, hdr.count, index));
+            cx().ev(crate::sim::EvKind::Sys, 5, index, hdr.count as u64);
+            0
+        }
+        (b'G', 1) => {
+            let u = &*(arg as *const Unmap);
+            cx().ev(crate::sim::EvKind::Sys, 6, u.index, u.count as u64);
+            let x = cx().sys.xen.as_mut().unwrap();
+            match x.grants.iter_mut().find(|g| g.live && g.index == u.index && g.count == u.count) {
+                Some(g) => {
+                    if !g.windows.is_empty() {
+                        x.anomalies.push(format!("grant at index {:#x} released while {} window(s) over it are still mapped", u.index, g.windows.len()));
+                    }
+                    g.live = false;
+                    x.log.push(format!("unmap_grant_ref(index={:#x}, count={})", u.index, u.count));
+                    0
+                }
+                None => {
+                    x.anomalies.push(format!("unmap_grant_ref(index={:#x}, count={}) matches no live grant", u.index, u.count));
+                    -1
+                }
+            }
+        }
+        (b'P', 4) => {
+            let b = &*(arg as *const Batch);
+            let k = x.map_calls;
+            x.map_calls += 1;
+            if x.fail_map_at == Some(k) {
+                x.log.push(format!("privcmd mmapbatch_v2(num={}) -> injected failure", b.num));
+                cx().count("fault.xen_map_ioctl_fail");
+                return -1;
+            }
+            let pfns = std::slice::from_raw_parts(b.arr, b.num as usize);
+            let errs = std::slice::from_raw_parts_mut(b.err, b.num as usize);
+            for (i, &pfn) in pfns.iter().enumerate() {
+                let va = (b.addr as usize + i * PAGE) as *mut libc::c_void;
+                let r = libc::mmap(va, PAGE, libc::PROT_READ | libc::PROT_WRITE, libc::MAP_SHARED | libc::MAP_FIXED, x.mem.as_raw_fd(), (pfn * PAGE as u64) as libc::off_t);
+                errs[i] = if r == libc::MAP_FAILED { -1 } else { 0 };
+            }
+            x.foreign_maps += 1;
+            x.log.push(format!("privcmd mmapbatch_v2(num={}, first pfn={})", b.num, pfns.first().copied().unwrap_or(0)));
+            cx().ev(crate::sim::EvKind::Sys, 7, b.num as u64, pfns.first().copied().unwrap_or(0));
+            0
+        }
+        _ => {
+            x.anomalies.push(format!("unknown ioctl {:#x}", req));
+            -1
+        }
+    }
 }
